@@ -269,6 +269,10 @@ HOT_FUNCTIONS = {
 }
 
 
+_SYNC_NAMES = frozenset(['put', 'get', 'get_nowait', 'put_nowait', 'append', 'appendleft', 'popleft', 'pop', 'is_set', 'clear', 'set',
+                        'acquire', 'release', 'wait', 'join', 'start', 'task_done', 'qsize', 'rotate', 'instance'])
+
+
 def _enable_events():
   line_codes = []
   op_codes = []
@@ -285,9 +289,17 @@ def _enable_events():
           op_codes.append(c)
           hot_codes.setdefault(short + ':' + w, []).append(c)
           found.add(w)
-    for w in wanted:
-      if w not in found:
-        anchors_missing.append(short + ':' + w)
+    missing = [w for w in wanted if w not in found]
+    for w in missing:
+      anchors_missing.append(short + ':' + w)
+    if missing:
+      # a hot function was renamed or moved: rather than silently losing bytecode granularity there, every function of
+      # this module that touches a synchronisation object or a queue becomes pre-emptible at bytecode level
+      have = set(id(c) for c in op_codes)
+      for c in codes:
+        if id(c) not in have and _SYNC_NAMES.intersection(c.co_names):
+          op_codes.append(c)
+          hot_codes.setdefault(short + ':(fallback)', []).append(c)
   _line_codes[:] = line_codes
   kernel.install_monitoring(line_codes, op_codes)
   kernel.install_coverage(line_codes)
